@@ -27,11 +27,11 @@ set_option linter.unusedSimpArgs false
 set_option linter.unusedVariables false
 namespace Order
 
-inductive FPhase where
+inductive TPhase where
   | unsent | posted | handed | running | done | drained | replied
 deriving DecidableEq, Repr
 
-inductive FLabel where
+inductive TLabel where
   | post (i : Nat)
   | hand (i : Nat)
   | start (i : Nat)
@@ -42,14 +42,14 @@ inductive FLabel where
 deriving DecidableEq, Repr
 
 /-- State of the fine model: the phase of every message's POST. -/
-structure FState where
-  phase : Nat → FPhase
+structure TState where
+  phase : Nat → TPhase
 
-def finit : FState := { phase := fun _ => .unsent }
+def tinit : TState := { phase := fun _ => .unsent }
 
-def FState.set (s : FState) (i : Nat) (p : FPhase) : FState := { phase := fun k => if k = i then p else s.phase k }
+def TState.set (s : TState) (i : Nat) (p : TPhase) : TState := { phase := fun k => if k = i then p else s.phase k }
 
-def fineStep (s : FState) : FLabel → Option FState
+def fineStep (s : TState) : TLabel → Option TState
   | .post i => if s.phase i = .unsent then some (s.set i .posted) else none
   | .hand i => if s.phase i = .posted then some (s.set i .handed) else none
   | .start i => if s.phase i = .handed then some (s.set i .running) else none
@@ -58,7 +58,7 @@ def fineStep (s : FState) : FLabel → Option FState
   | .drain i => if s.phase i = .done then some (s.set i .drained) else none     -- `session.Wait()` returns only then
   | .reply i => if s.phase i = .drained then some (s.set i .replied) else none -- the HTTP handler returns after `Wait`
 
-def fineRun : FState → List FLabel → Option FState
+def fineRun : TState → List TLabel → Option TState
   | s, [] => some s
   | s, l :: ls =>
     match fineStep s l with
@@ -66,7 +66,7 @@ def fineRun : FState → List FLabel → Option FState
     | none => none
 
 /-- The label of `stepE` a fine label stands for (`hand`, `drain` are internal to the server). -/
-def FLabel.coarse : FLabel → Option Label
+def TLabel.coarse : TLabel → Option Label
   | .post i => some (.send i)
   | .start i => some (.start i)
   | .cb i => some (.cb i)
@@ -74,9 +74,9 @@ def FLabel.coarse : FLabel → Option Label
   | .reply i => some (.ret i)
   | _ => none
 
-def coarse (ls : List FLabel) : List Label := ls.filterMap FLabel.coarse
+def coarse (ls : List TLabel) : List Label := ls.filterMap TLabel.coarse
 
-def FPhase.abs : FPhase → Phase
+def TPhase.abs : TPhase → Phase
   | .unsent => .unsent
   | .posted => .sending
   | .handed => .sending
@@ -86,44 +86,44 @@ def FPhase.abs : FPhase → Phase
   | .replied => .done
 
 /-- The abstraction relation: phases correspond, and `returned` holds exactly the replied messages. -/
-structure FAbs (f : FState) (s : State) : Prop where
+structure TAbs (f : TState) (s : State) : Prop where
   phase : ∀ i, s.phase i = (f.phase i).abs
   returned : ∀ i, i ∈ s.returned ↔ f.phase i = .replied
 
-theorem fabs_init : FAbs finit init := ⟨by intro i; rfl, by intro i; simp [init, finit]⟩
+theorem tabs_init : TAbs tinit init := ⟨by intro i; rfl, by intro i; simp [init, tinit]⟩
 
-theorem FState.set_phase (f : FState) (i k : Nat) (p : FPhase) :
+theorem TState.set_phase (f : TState) (i k : Nat) (p : TPhase) :
     (f.set i p).phase k = if k = i then p else f.phase k := rfl
 
 /-- One fine step is one step of `stepE`, or none at all. -/
-theorem fabs_step {f f' : FState} {s : State} {l : FLabel} (ha : FAbs f s) (h : fineStep f l = some f') :
+theorem tabs_step {f f' : TState} {s : State} {l : TLabel} (ha : TAbs f s) (h : fineStep f l = some f') :
     match l.coarse with
-    | some c => ∃ s', stepE s c = some s' ∧ FAbs f' s'
-    | none => FAbs f' s := by
+    | some c => ∃ s', stepE s c = some s' ∧ TAbs f' s'
+    | none => TAbs f' s := by
   cases l <;> simp only [fineStep] at h <;> split at h <;> simp at h <;> subst h <;> rename_i hp <;>
-    simp only [FLabel.coarse]
+    simp only [TLabel.coarse]
   case post i =>
     have hs : s.phase i = .unsent := by rw [ha.phase, hp]; rfl
     refine ⟨s.setPhase i .sending, by simp [stepE, hs], ?_, ?_⟩
     · intro k
-      simp only [setPhase_phase, FState.set_phase]
+      simp only [setPhase_phase, TState.set_phase]
       by_cases e : k = i
-      · simp [e, FPhase.abs]
+      · simp [e, TPhase.abs]
       · simp [e, ha.phase]
     · intro k
-      simp only [State.setPhase, FState.set_phase]
+      simp only [State.setPhase, TState.set_phase]
       by_cases e : k = i
       · subst e; simp; intro hk; have := (ha.returned k).1 hk; simp [hp] at this
       · simp [e]; exact ha.returned k
   case hand i =>
     refine ⟨?_, ?_⟩
     · intro k
-      simp only [FState.set_phase]
+      simp only [TState.set_phase]
       by_cases e : k = i
-      · subst e; simp [FPhase.abs]; rw [ha.phase, hp]; rfl
+      · subst e; simp [TPhase.abs]; rw [ha.phase, hp]; rfl
       · simp [e, ha.phase]
     · intro k
-      simp only [FState.set_phase]
+      simp only [TState.set_phase]
       by_cases e : k = i
       · subst e; simp; intro hk; have := (ha.returned k).1 hk; simp [hp] at this
       · simp [e]; exact ha.returned k
@@ -131,12 +131,12 @@ theorem fabs_step {f f' : FState} {s : State} {l : FLabel} (ha : FAbs f s) (h : 
     have hs : s.phase i = .sending := by rw [ha.phase, hp]; rfl
     refine ⟨s.setPhase i .running, by simp [stepE, hs], ?_, ?_⟩
     · intro k
-      simp only [setPhase_phase, FState.set_phase]
+      simp only [setPhase_phase, TState.set_phase]
       by_cases e : k = i
-      · simp [e, FPhase.abs]
+      · simp [e, TPhase.abs]
       · simp [e, ha.phase]
     · intro k
-      simp only [State.setPhase, FState.set_phase]
+      simp only [State.setPhase, TState.set_phase]
       by_cases e : k = i
       · subst e; simp; intro hk; have := (ha.returned k).1 hk; simp [hp] at this
       · simp [e]; exact ha.returned k
@@ -147,24 +147,24 @@ theorem fabs_step {f f' : FState} {s : State} {l : FLabel} (ha : FAbs f s) (h : 
     have hs : s.phase i = .running := by rw [ha.phase, hp]; rfl
     refine ⟨s.setPhase i .done, by simp [stepE, hs], ?_, ?_⟩
     · intro k
-      simp only [setPhase_phase, FState.set_phase]
+      simp only [setPhase_phase, TState.set_phase]
       by_cases e : k = i
-      · simp [e, FPhase.abs]
+      · simp [e, TPhase.abs]
       · simp [e, ha.phase]
     · intro k
-      simp only [State.setPhase, FState.set_phase]
+      simp only [State.setPhase, TState.set_phase]
       by_cases e : k = i
       · subst e; simp; intro hk; have := (ha.returned k).1 hk; simp [hp] at this
       · simp [e]; exact ha.returned k
   case drain i =>
     refine ⟨?_, ?_⟩
     · intro k
-      simp only [FState.set_phase]
+      simp only [TState.set_phase]
       by_cases e : k = i
-      · subst e; simp [FPhase.abs]; rw [ha.phase, hp]; rfl
+      · subst e; simp [TPhase.abs]; rw [ha.phase, hp]; rfl
       · simp [e, ha.phase]
     · intro k
-      simp only [FState.set_phase]
+      simp only [TState.set_phase]
       by_cases e : k = i
       · subst e; simp; intro hk; have := (ha.returned k).1 hk; simp [hp] at this
       · simp [e]; exact ha.returned k
@@ -173,12 +173,12 @@ theorem fabs_step {f f' : FState} {s : State} {l : FLabel} (ha : FAbs f s) (h : 
     have hn : i ∉ s.returned := by intro hk; have := (ha.returned i).1 hk; simp [hp] at this
     refine ⟨{ s with returned := i :: s.returned }, by simp [stepE, hs, hn], ?_, ?_⟩
     · intro k
-      simp only [FState.set_phase]
+      simp only [TState.set_phase]
       by_cases e : k = i
-      · subst e; simp [FPhase.abs, hs]
+      · subst e; simp [TPhase.abs, hs]
       · simp [e, ha.phase]
     · intro k
-      simp only [FState.set_phase, List.mem_cons]
+      simp only [TState.set_phase, List.mem_cons]
       by_cases e : k = i
       · simp [e]
       · simp [e]; exact ha.returned k
@@ -186,8 +186,8 @@ theorem fabs_step {f f' : FState} {s : State} {l : FLabel} (ha : FAbs f s) (h : 
 /-- REFINEMENT: for ALL label lists, a run of the statement-level model of the temporary session shows, through
 `coarse`, a run of `stepE` — "the POST is answered only after the session has handled what it carried" is a
 consequence of `session.Wait()` standing between `ServeHTTP` and the return of the HTTP handler. -/
-theorem fine_refines_stepE {f f' : FState} {s : State} {ls : List FLabel} (ha : FAbs f s) (h : fineRun f ls = some f') :
-    ∃ s', runE s (coarse ls) = some s' ∧ FAbs f' s' := by
+theorem fine_refines_stepE {f f' : TState} {s : State} {ls : List TLabel} (ha : TAbs f s) (h : fineRun f ls = some f') :
+    ∃ s', runE s (coarse ls) = some s' ∧ TAbs f' s' := by
   induction ls generalizing f s with
   | nil => simp [fineRun] at h; subst h; exact ⟨s, rfl, ha⟩
   | cons l r ih =>
@@ -196,7 +196,7 @@ theorem fine_refines_stepE {f f' : FState} {s : State} {ls : List FLabel} (ha : 
     | none => simp [h1] at h
     | some f1 =>
       simp only [h1] at h
-      have hstep := fabs_step ha h1
+      have hstep := tabs_step ha h1
       cases hc : l.coarse with
       | none =>
         simp only [hc] at hstep
@@ -210,19 +210,19 @@ theorem fine_refines_stepE {f f' : FState} {s : State} {ls : List FLabel} (ha : 
 
 /-- Hence the ordering clause of C03 holds on what an observer sees of EVERY run of the statement-level model,
 whatever the kinds of the messages and however long the handlers run. -/
-theorem fine_runs_satisfy_monitor (kind : Nat → Kind) {ls : List FLabel} {f : FState}
-    (h : fineRun finit ls = some f) : holdsOn kind (visible (coarse ls)) = true := by
-  obtain ⟨s', hr, _⟩ := fine_refines_stepE fabs_init h
+theorem fine_runs_satisfy_monitor (kind : Nat → Kind) {ls : List TLabel} {f : TState}
+    (h : fineRun tinit ls = some f) : holdsOn kind (visible (coarse ls)) = true := by
+  obtain ⟨s', hr, _⟩ := fine_refines_stepE tabs_init h
   exact ephemeral_runs_satisfy_monitor kind hr
 
 /-- For ALL runs: when the client's `Write` for `i` returns (`reply i`), the handler of `i` has finished. -/
-theorem reply_after_fin {ls : List FLabel} {f f' : FState} {i : Nat}
-    (h : fineRun finit ls = some f) (hr : fineStep f (.reply i) = some f') : FLabel.fin i ∈ ls := by
+theorem reply_after_fin {ls : List TLabel} {f f' : TState} {i : Nat}
+    (h : fineRun tinit ls = some f) (hr : fineStep f (.reply i) = some f') : TLabel.fin i ∈ ls := by
   -- invariant: a message at or beyond `done` has a `fin` label in the history
-  have inv : ∀ (ls pre : List FLabel) (g g' : FState),
-      (∀ k, (g.phase k = .done ∨ g.phase k = .drained ∨ g.phase k = .replied) → FLabel.fin k ∈ pre) →
+  have inv : ∀ (ls pre : List TLabel) (g g' : TState),
+      (∀ k, (g.phase k = .done ∨ g.phase k = .drained ∨ g.phase k = .replied) → TLabel.fin k ∈ pre) →
       fineRun g ls = some g' →
-      ∀ k, (g'.phase k = .done ∨ g'.phase k = .drained ∨ g'.phase k = .replied) → FLabel.fin k ∈ pre ++ ls := by
+      ∀ k, (g'.phase k = .done ∨ g'.phase k = .drained ∨ g'.phase k = .replied) → TLabel.fin k ∈ pre ++ ls := by
     intro ls
     induction ls with
     | nil => intro pre g g' h0 hrun k hk; simp [fineRun] at hrun; subst hrun; simpa using h0 k hk
@@ -233,13 +233,13 @@ theorem reply_after_fin {ls : List FLabel} {f f' : FState} {i : Nat}
       | none => simp [hm] at hrun
       | some m =>
         simp only [hm] at hrun
-        have hnext : ∀ k, (m.phase k = .done ∨ m.phase k = .drained ∨ m.phase k = .replied) → FLabel.fin k ∈ pre ++ [l] := by
+        have hnext : ∀ k, (m.phase k = .done ∨ m.phase k = .drained ∨ m.phase k = .replied) → TLabel.fin k ∈ pre ++ [l] := by
           intro k hk
           cases l <;> simp only [fineStep] at hm <;> split at hm <;> simp at hm <;> subst hm <;> rename_i hp
           case fin j =>
             by_cases e : k = j
             · subst e; simp
-            · simp only [FState.set_phase, e, if_false] at hk
+            · simp only [TState.set_phase, e, if_false] at hk
               exact List.mem_append_left _ (h0 k hk)
           case cb j => exact List.mem_append_left _ (h0 k hk)
           all_goals
@@ -249,27 +249,27 @@ theorem reply_after_fin {ls : List FLabel} {f f' : FState} {i : Nat}
               first
                 | (have hq : g.phase k = .done ∨ g.phase k = .drained ∨ g.phase k = .replied := by simp [hp]
                    exact List.mem_append_left _ (h0 k hq))
-                | (simp [FState.set_phase] at hk)
-            · simp only [FState.set_phase, e, if_false] at hk
+                | (simp [TState.set_phase] at hk)
+            · simp only [TState.set_phase, e, if_false] at hk
               exact List.mem_append_left _ (h0 k hk)
         have := ih (pre ++ [l]) m g' hnext hrun k hk
         simpa [List.append_assoc] using this
   simp only [fineStep] at hr
   split at hr <;> simp at hr
   rename_i hp
-  have := inv ls [] finit f (by intro k hk; simp [finit] at hk) h i (Or.inr (Or.inl hp))
+  have := inv ls [] tinit f (by intro k hk; simp [tinit] at hk) h i (Or.inr (Or.inl hp))
   simpa using this
 
 /-- Non-vacuity: a slow notification 0, then call 1 — the call is posted only after the notification's POST was
 answered, which is after its handler finished. -/
-example : (fineRun finit [.post 0, .hand 0, .start 0, .cb 0, .fin 0, .drain 0, .reply 0,
+example : (fineRun tinit [.post 0, .hand 0, .start 0, .cb 0, .fin 0, .drain 0, .reply 0,
                           .post 1, .hand 1, .start 1, .fin 1, .drain 1, .reply 1]).isSome = true := by decide
 
 /-- Seeded change C03-m15 (`serveEphemeral` stops waiting after 10 s and lets the HTTP handler return): `reply 0`
 while the handler of 0 is still running is not a step of the model, and what the client then observes is rejected
 by the monitor. -/
 theorem bounded_drain_breaks_order :
-    (fineRun finit [.post 0, .hand 0, .start 0, .reply 0]).isNone = true
+    (fineRun tinit [.post 0, .hand 0, .start 0, .reply 0]).isNone = true
     ∧ holdsOn (fun k => if k = 0 then .note else .call)
         [.snd 0, .beg 0, .ret 0, .snd 1, .beg 1, .fin 1, .ret 1, .fin 0] = false := by
   constructor <;> decide
